@@ -122,6 +122,17 @@ def run(ctx):
                     modes[label + ", from a subdirectory"] = subprocess.run([ctx["bins"]["sizer"]] + args, cwd=sub3, env=env, stdout=subprocess.PIPE, stderr=subprocess.PIPE)
                     modes[label + ", through an absolute GIT_DIR"] = subprocess.run([ctx["bins"]["sizer"]] + args, cwd=scratch, env=dict(env, GIT_DIR=os.path.join(d3, ".git")), stdout=subprocess.PIPE, stderr=subprocess.PIPE)
                     modes[label + ", as git -C <subdirectory> sizer"] = subprocess.run(["git", "-C", sub3, "sizer"] + args, cwd=scratch, env=env, stdout=subprocess.PIPE, stderr=subprocess.PIPE)
+            # a relative GIT_DIR with a '..' component, used from a directory that was reached through a symbolic link (the logical
+            # $PWD names the link): `..` is resolved physically by git, i.e. against the link's TARGET.  The link sits in a
+            # directory next to which a decoy .git with a `shallow` file exists, so a lexical resolution would find that one.
+            decoy = os.path.join(scratch, "decoy%d" % it)
+            os.makedirs(os.path.join(decoy, ".git"), exist_ok=True)
+            open(os.path.join(decoy, ".git", "shallow"), "w").write(sc.oids[[i for i, o in enumerate(sc.objects) if o["kind"] == "commit"][0]].hex() + "\n")
+            lnk = os.path.join(decoy, "link-to-subdir")
+            if not os.path.lexists(lnk):
+                os.symlink(sub, lnk)
+            modes["GIT_DIR=../.git from a subdirectory reached through a symbolic link"] = subprocess.run(
+                [ctx["bins"]["sizer"]] + args, cwd=lnk, env=dict(env, GIT_DIR="../.git", PWD=lnk), stdout=subprocess.PIPE, stderr=subprocess.PIPE)
             # the caller stands in ANOTHER repository (its top level, a subdirectory, its .git) and names this one
             oth = S.Scenario()
             ob = oth.add({"kind": "blob", "data": b"other repository\n"})
@@ -276,7 +287,13 @@ def run(ctx):
             for gd in (gitdir, bare):
                 with open(os.path.join(gd, "shallow"), "w") as f:
                     f.write(sc.oids[commits[0]].hex() + "\n")
+            plain = os.path.join(scratch, "plain%d" % it)
+            os.makedirs(plain, exist_ok=True)
+            lnk2 = os.path.join(plain, "link-to-subdir")
+            if not os.path.lexists(lnk2):
+                os.symlink(sub, lnk2)
             sruns = {"top": dict(cwd=d, env=env), "subdir": dict(cwd=sub, env=env), "GIT_DIR": dict(cwd=scratch, env=e2),
+                     "GIT_DIR=../.git through a symbolic link": dict(cwd=lnk2, env=dict(env, GIT_DIR="../.git", PWD=lnk2)),
                      "bare": dict(cwd=bare, env=env)}
             if os.path.isdir(wt):
                 sruns["worktree"] = dict(cwd=wt, env=env)
